@@ -619,13 +619,11 @@ func renderNode(w io.Writer, node *treeNode, prefix string, isLast bool, isRoot 
 
 // abbreviate truncates a string to maxLen, adding "…" if truncated.
 func abbreviate(s string, maxLen int) string {
-	if len(s) <= maxLen {
+	if visibleLen(s) <= maxLen {
 		return s
 	}
-	if maxLen <= 1 {
-		return "…"
-	}
-	return s[:maxLen-1] + "…"
+	// Cut on character boundaries (by display width), never inside a rune.
+	return truncateToWidth(s, maxLen)
 }
 
 // stateIcon returns the appropriate icon for a task's state.
